@@ -235,7 +235,8 @@ def summarize(rec, why):
     s = ("compute_balance answer not allowed by the postconditions: outcome %s; request: rule %s strat %s target %s "
          "minSplit %s notes %s dust %s/%s memo %s eph %s/%s targetH %s nu63H %s anchor %s/%s ov3 %s sapType %s "
          "tin %s/%s tout %s/%s sin %s sout %s oin %s oout %s iin %s iout %s"
-         % (json.dumps({k: o[k] for k in o if k in ("k", "fee") or (o[k] != [] and o[k] != "" and o[k] is not False)}), q["rule"], q["strat"], q["target"],
+         % (json.dumps({k: o[k] for k in o if k in ("k", "fee") or (k in ("available", "required") and o["k"] == "insufficient")
+                        or (k not in ("available", "required", "hasDummy") and o[k] != [] and o[k] != "")}), q["rule"], q["strat"], q["target"],
             q["minSplit"], q["notes"], q["act"], q["thr"] if q["hasThr"] else "default", q["memo"], q["ephK"], q["ephV"],
             q["targetH"], q["nu63H"], q["anchorH"], q["interval"], q["ov3"], q["sapType"], q["tinV"], q["tinS"],
             q["toutV"], q["toutS"], q["sin"], q["sout"], q["oin"], q["oout"], q["iin"], q["iout"]))
